@@ -58,11 +58,33 @@ impl FrameEncoder {
         ensures r is Ok ==> final(dst)@ == old(dst)@ + wire(item) && wire(item).len() >= 4,
     { unimplemented!() }
 }
-pub struct LenCodec { pub max: usize }
-impl LenCodec { pub fn max_frame_length(&self) -> (r: usize) ensures r == self.max { self.max } }
+pub struct LengthDelimitedCodec { pub max: usize }
+pub type LenCodec = LengthDelimitedCodec;
+impl LengthDelimitedCodec {
+    pub fn max_frame_length(&self) -> (r: usize) ensures r == self.max { self.max }
+    pub fn set_max_frame_length(&mut self, val: usize) ensures final(self).max == val { self.max = val; }
+}
+/// tokio_util::codec::length_delimited::Builder as configured here: big-endian 4-octet length field, length_adjustment -4 (the AMQP size field counts itself).
+/// Encoding refuses an item longer than max_frame_length and writes item.len() + 4 in the length field; decoding refuses a length FIELD above max_frame_length.
+pub struct LenCodecBuilder { pub big: bool, pub field_len: usize, pub max: usize, pub adj: isize }
+impl LengthDelimitedCodec { pub fn builder() -> (r: LenCodecBuilder) ensures r == (LenCodecBuilder { big: true, field_len: 4, max: 8388608usize, adj: 0 }) { LenCodecBuilder { big: true, field_len: 4, max: 8388608usize, adj: 0 } } }
+impl LenCodecBuilder {
+    pub fn big_endian(self) -> (r: Self) ensures r == (LenCodecBuilder { big: true, ..self }) { LenCodecBuilder { big: true, ..self } }
+    pub fn length_field_length(self, n: usize) -> (r: Self) ensures r == (LenCodecBuilder { field_len: n, ..self }) { LenCodecBuilder { field_len: n, ..self } }
+    pub fn max_frame_length(self, n: usize) -> (r: Self) ensures r == (LenCodecBuilder { max: n, ..self }) { LenCodecBuilder { max: n, ..self } }
+    pub fn length_adjustment(self, n: isize) -> (r: Self) ensures r == (LenCodecBuilder { adj: n, ..self }) { LenCodecBuilder { adj: n, ..self } }
+    pub fn new_codec(self) -> (r: LenCodec)
+        requires self.big, self.field_len == 4, self.adj == -4,            // [C06.codec.amqp-size-field] the frame size field is 4 octets, big-endian, and counts itself
+        ensures r.max == self.max,
+    { LengthDelimitedCodec { max: self.max } }
+}
+pub const MIN_MAX_FRAME_SIZE: usize = 512;
+pub fn usize_max(a: usize, b: usize) -> (r: usize) ensures r == (if a >= b { a } else { b }) { if a >= b { a } else { b } }
 pub struct FramedWriteS { pub codec: LenCodec, pub items: Ghost<Seq<Seq<u8>>> }
 impl FramedWriteS {
     pub fn encoder(&self) -> (r: &LenCodec) ensures *r == self.codec { &self.codec }
+    #[verifier::external_body]
+    pub fn encoder_mut(&mut self) -> (r: &mut LenCodec) ensures *r == old(self).codec, final(self).codec == *final(r), final(self).items == old(self).items { unimplemented!() }
     #[verifier::external_body]
     pub fn start_send(&mut self, item: Bytes) -> (r: Result<(), IoError>)
         requires item@.len() <= old(self).codec.max,     // [C06.transport.item-within-limit] LengthDelimitedCodec refuses an item longer than max_frame_length: every item handed to it must fit
@@ -86,11 +108,13 @@ impl IdleTimeoutS {
 pub struct Context { pub g: Ghost<int> }
 pub enum Poll<T> { Ready(T), Pending }
 /// FramedRead<_, LengthDelimitedCodec>: yields the next length-delimited item, an error, end of stream, or nothing yet
-pub struct FramedReadS { pub got: Ghost<nat> }
+pub struct FramedReadS { pub got: Ghost<nat>, pub codec: LenCodec }
 impl FramedReadS {
     #[verifier::external_body]
+    pub fn decoder_mut(&mut self) -> (r: &mut LenCodec) ensures *r == old(self).codec, final(self).codec == *final(r), final(self).got == old(self).got { unimplemented!() }
+    #[verifier::external_body]
     pub fn poll_next(&mut self, cx: &mut Context) -> (r: Poll<Option<Result<BytesMut, IoError>>>)
-        ensures (r is Ready) ==> final(self).got@ == old(self).got@ + 1, (r is Pending) ==> final(self).got@ == old(self).got@,
+        ensures (r is Ready) ==> final(self).got@ == old(self).got@ + 1, (r is Pending) ==> final(self).got@ == old(self).got@, final(self).codec == old(self).codec,
     { unimplemented!() }
 }
 pub struct FrameDecoder {}
@@ -197,7 +221,44 @@ impl Transport {
                 && (!t.elapsed@ ==> r is Pending),
             None => final(self).idle_timeout is None && r is Pending }),
 //@@ end
+
+//@@ fn file=fe2o3-amqp/src/transport/mod.rs impl=`~impl<Io>Transport<Io,amqp::Frame>whereIo:AsyncRead+AsyncWrite+Unpin` name=set_encoder_max_frame_size
+//@@ ret ()
+//@@ subst `std::cmp::max(MIN_MAX_FRAME_SIZE, max_frame_size)` => `usize_max(MIN_MAX_FRAME_SIZE, max_frame_size)` rule=R16
+//@@ subst `; self }` => `; }` rule=R7
+//@@ spec
+    ensures
+        final(self).framed_write.codec.max == (if max_frame_size >= 512 { max_frame_size } else { 512 }) - 4,          // [C06.transport.encoder-limit] an item handed to the length-delimited writer may be at most (peer's max-frame-size, but at least 512) minus the 4 octets of the size field: the frame on the wire never exceeds the peer's max-frame-size
+        final(self).framed_write.codec.max >= 508,
+        final(self).framed_write.items == old(self).framed_write.items, final(self).framed_read == old(self).framed_read, final(self).idle_timeout == old(self).idle_timeout,
+//@@ end
+
+//@@ fn file=fe2o3-amqp/src/transport/mod.rs impl=`~impl<Io>Transport<Io,amqp::Frame>whereIo:AsyncRead+AsyncWrite+Unpin` name=set_decoder_max_frame_size
+//@@ ret ()
+//@@ subst `std::cmp::max(MIN_MAX_FRAME_SIZE, max_frame_size)` => `usize_max(MIN_MAX_FRAME_SIZE, max_frame_size)` rule=R16
+//@@ subst `; self }` => `; }` rule=R7
+//@@ spec
+    ensures
+        final(self).framed_read.codec.max == (if max_frame_size >= 512 { max_frame_size } else { 512 }),                // [C15.transport.decoder-limit] an incoming frame whose size field exceeds our own max-frame-size (at least 512) is refused by the length-delimited reader before it is buffered
+        final(self).framed_write == old(self).framed_write, final(self).idle_timeout == old(self).idle_timeout,
+//@@ end
+
+//@@ fn file=fe2o3-amqp/src/transport/mod.rs impl=`~impl<Io>Transport<Io,amqp::Frame>whereIo:AsyncRead+AsyncWrite+Unpin` name=encoder_max_frame_size
+//@@ spec
+    ensures r == self.framed_write.codec.max,
+//@@ end
 }
+
+//@@ fn file=fe2o3-amqp/src/transport/mod.rs name=length_delimited_encoder
+//@@ spec
+    requires max_frame_size >= 4,
+    ensures r.max == max_frame_size - 4,                               // [C06.transport.encoder-limit]
+//@@ end
+
+//@@ fn file=fe2o3-amqp/src/transport/mod.rs name=length_delimited_decoder
+//@@ spec
+    ensures r.max == max_frame_size,                                   // [C15.transport.decoder-limit]
+//@@ end
 
 } // verus!
 fn main() {}
